@@ -389,3 +389,17 @@ mod kani {
         }
     }
 }
+
+// Verification hooks (guarded; compiled only with `--cfg mini_moka_verif`).
+#[cfg(mini_moka_verif)]
+impl FrequencySketch {
+    pub(crate) fn verif_snapshot(&self) -> crate::verif::SketchSnap {
+        crate::verif::SketchSnap {
+            enabled: false,
+            size: self.size,
+            sample_size: self.sample_size,
+            table_mask: self.table_mask,
+            table: self.table.to_vec(),
+        }
+    }
+}
